@@ -10,6 +10,11 @@ TRUST = ("Trusted: Lean 4.33 kernel (axioms ⊆ {propext, Classical.choice, Quot
 
 # id -> (category, text, note, technique, design_ref)
 CLAIMS = {
+ "C05": ("proof",
+         "PARTIAL by nature: a Lean model cannot exhibit a Go panic, a runtime fatal error or a wall-clock hang; what it carries is TERMINATION and TOTALITY of the modelled code, proved for every input: the fuel of the lexer, trim loops and scanners is always enough (C05_lex_fuel, C05_trim_fuel, C05_scan_fuel); all 14 mutually recursive expression-parser functions and the 8 template-parser functions are fuel-monotone and never run out of the fuel the model gives them on ANY token list (C05_expr_fuel_adequate, C05_tpl_fuel_adequate), so parsing returns nodes or a parse error, never diverges (C05_parse_total); expression evaluation never runs out of fuel and a render only does so through template/macro recursion, the case the property excludes (C05_render_fuel_is_recursion); the container decoder is total (C05_decode_total). "
+         "Search for panics/hangs on the real code (implementation-only): mutation fuzz of generator templates and tag soup with engine reuse afterwards, a zoo of ≈ 45 Go value shapes × ≈ 70 templates over every built-in filter/function/test/operator in two passes (cold and warm process-wide caches), hostile compiled-template bytes incl. 32-bit boundary length prefixes; every case under recover and a 10 s watchdog.",
+         TRUST + "Not verifiable here: reflection over arbitrary user-defined types (methods with side effects), encoding/gob on hostile bytes, memory exhaustion. Panic freedom of the Go index arithmetic is evidenced by the correspondence (the model uses total list operations where Go slices) and the fuzz, not by a theorem.",
+         "Lean 4 proof (fuel adequacy/monotonicity = termination of the transliterated parsers; totality of the decoder) + fuzz/type-zoo search on the real code", "DESIGN.md §4 C05"),
  "C11": ("proof",
          "Lean theorems over the validated whole-pipeline model, for every include node, option combination, context and `go`: after an include the includer's context (variables, macros, blocks, flags) is exactly what it was (C11_non_interference, built on evalX_ctx: expression evaluation never changes the context); the included template sees the `with` variables (last duplicate wins) over the includer's visible variables, only the `with` variables under `only`, the flattened copy of the whole scope chain under `sandboxed` (C11_visibility_*); a missing template is empty output under `ignore missing` and notFound otherwise, any other failure propagates even with `ignore missing` (C11_ignore_missing, _only_missing, _existing_failure_reported). "
          "Tie: 4 variable names × unset/context/set-before × with/only/ignore missing/sandboxed × static/computed/missing/failing target × placement at top level, in a loop, block, macro, nested include; view of the included template and probes before/after checked against the scope rule on the real engine and against the Lean pipeline.",
